@@ -40,8 +40,10 @@ def _sample(case, h):
     return c
 
 
-def generate_and_run(prop, tier, seed, idx, kind=None, want_sample=False):
+def generate_and_run(prop, tier, seed, idx, kind=None, want_sample=False, kinds=None, **_):
     rng = rng_for(seed, tier, prop, "A", idx)
+    if kinds:
+        kind = rng.choice(kinds)
     case, gen = gen_a.make_case(prop, rng, tier, kind)
     case["seed"] = seed
     case["run"] = idx
